@@ -58,10 +58,10 @@ deriving Repr, DecidableEq
     findings/C10-new-group-users-accept-room-admin.patch) and the unchecked creation of a group
     (findings/C10-new-group-needs-room-admin.patch). -/
 def Defects.asImplemented : Defects :=
-  { newestFirstReplay := false,          -- fixed: /repo f7a29ff
+  { newGroupUsersNeedUserAdmin := true,  -- findings/C10-new-group-users-accept-room-admin.patch
+    newestFirstReplay := false,          -- fixed: /repo f7a29ff
     reloadRawRights := false,            -- fixed: /repo be6bedc
     reloadDropsIncompleteRoom := false,  -- fixed: /repo ee57a96
-    newGroupUsersNeedUserAdmin := true,  -- findings/C10-new-group-users-accept-room-admin.patch
     uidOrderReversed := false,           -- (environment parameter, not a defect)
     groupCreationUnchecked := true }     -- findings/C10-new-group-needs-room-admin.patch
 
